@@ -38,6 +38,7 @@ def run(ctx):
     for s in subs:
         s["every_prefix"] = False
     ctx.distinct = tc.distinct(programs + subs)
+    programs = programs + tc.far_programs(rng, th)          # full images beyond 64 KiB
     tc.judge(ctx, programs, "c04")
     # the seeded programs again on the build with integer-overflow checks and debug assertions
     vlib.run_and_judge(ctx, rnd[:1500], "Trace_Tables.cfg", "Trace_Tables.tla", "c04chk", profile="checked")
